@@ -639,7 +639,10 @@ void JitCompilerA64::h_ISUB_R(Instruction& instr, uint32_t& codePos)
 	}
 	else
 	{
-		emitAddImmediate(dst, dst, -instr.getImm32(), code, k);
+		// sub dst, dst, sign-extended imm32
+		constexpr uint32_t tmp_reg = 20;
+		emitMovImmediate(tmp_reg, instr.getImm32(), code, k);
+		emit32(ARMV8A::SUB | dst | (dst << 5) | (tmp_reg << 16), code, k);
 	}
 
 	reg_changed_offset[instr.dst] = k;
